@@ -56,7 +56,7 @@ NF = {}  # normal-form tables of the opaque codecs, filled by run() through a wo
 #   secs    user-defined NumValue subclass: unit required, no constant of its own
 _PV = {}
 PV_VARIANTS = ["px", "num", "si", "metres", "secs"]
-PV_NOINFER = ("num", "secs")  # Parser.infer_unit is None: see the fixed probe `numvalue_probe` (unit-less inputs are kept out of the random pools)
+PV_NOINFER = ("num", "secs")  # Parser.infer_unit is None: a unit-less value must stay unit-less (F29, see `numvalue_probe` and signature())
 PV_NUMS = [0, 1, 3, 7, -5, 255, 10 ** 6, 2 ** 53 + 1, 0.0, 0.5, 2.5, -0.25, 1e-7, 1e22, 123456789.125]
 
 
@@ -93,10 +93,10 @@ def _pv_gen(variant):
             if r < 0.9:
                 d["unitText"] = rng.choice(units)
             return d
-        if variant not in PV_NOINFER and r < 0.45:
-            return n  # bare number: the unit is inferred by the Parser
+        if r < (0.15 if variant == "secs" else 0.4):
+            return n  # bare number: the unit is inferred by the Parser / the value stays unit-less / refused (unit required)
         d = {"value": n}
-        if variant in PV_NOINFER or r < 0.8:
+        if r < (0.9 if variant == "secs" else 0.8):
             d["unitCode" if rng.random() < 0.2 else "unitText"] = rng.choice(units)
         if rng.random() < 0.15:
             d["minValue"] = 0  # dropped by the parser (normalisation), the instance then round-trips
@@ -252,7 +252,12 @@ def check_instance(S, o, inp, schema_name, hist=None):
     except Exception as e:
         bad("serialise-raises", form="json", error="%s: %s" % (type(e).__name__, e))
         return V
-    if _has_nan(json.loads(forms["json"])):
+    try:
+        jd0 = json.loads(forms["json"])
+    except Exception as e:
+        bad("json-output-is-not-json", form="json", text=forms["json"], error="%s: %s" % (type(e).__name__, e))
+        return V
+    if _has_nan(jd0):
         return V  # NaN excluded (NaN != NaN)
     try:
         forms["bytes"] = bytes(o)
@@ -309,7 +314,7 @@ def check_instance(S, o, inp, schema_name, hist=None):
     # constants of the instance itself: forced on output whatever the input says about them
     consts = getattr(S, "__constants__", {})
     if consts:
-        jd = o.json_dict()
+        jd = jd0
         for k, v in consts.items():
             if v is None:
                 continue  # None means "missing" by convention and is never dumped
@@ -318,7 +323,7 @@ def check_instance(S, o, inp, schema_name, hist=None):
             elif jd[k] != json.loads(json.dumps(v)):
                 bad("constant-wrong-in-output", key=k, expected=v, got=jd[k])
         for other in ("vt-other-value", 12345, None, ["x"], {"a": 1}):
-            d = json.loads(forms["json"])
+            d = json.loads(json.dumps(jd0))
             for k in consts:
                 d[k] = other
             try:
@@ -1043,7 +1048,8 @@ def pv_focused_families():
 
 
 def numvalue_probe():
-    """Fixed probe (kept out of the random pools): a unit-less value for a NumValue whose Parser infers no unit."""
+    """Fixed probe for F29 (repaired in /repo; also reachable by the random pools): a unit-less value for a NumValue whose
+    Parser infers no unit read back with unitText "" (bare number) / was accepted with unitText "" and then refused its own output (dict)."""
     fam = [dict(name="Aa", parent=None, extra=None, fields=[["n", ["ext", "pv-num"], None]], consts=[], overrides=[], mandatory=[])]
     return dict(kind="fam", fam=fam, root="Aa", inputs=[{"n": 5}, {"n": {"value": 5}}], nomodel=True)
 
